@@ -3,10 +3,15 @@
    list ends; `StepParser::position()` is the position of the first remaining node (or the end
    position), which is exactly the tokenizer location because tokens are contiguous.
 
-   Faithful to the code that exists, including:
-   - positions taken by `next_including_whitespace` *before* comments are skipped;
-   - the Function arm of convert_class_names_and_rpx_in_block switching to convert_rpx_in_block;
-   - `contain_rule_list` = {media, supports, document};
+   Faithful to the code that exists (after the fix: commits eb11eee 412b5df c88801e 1dd75dd
+   f5fc923), including:
+   - `next_including_whitespace` skips comments itself and records the position of the token;
+   - math functions (calc/min/max/clamp, any letter case) are walked by convert_rpx_in_block in
+     calc mode, which is inherited by parentheses nested in them; every other function nested in
+     a selector-context block stays in convert_class_names_and_rpx_in_block;
+   - `contain_rule_list` = {media, supports, document, layer, container, scope, starting-style},
+     compared ASCII-case-insensitively;
+   - `@import` accepts a string, a url token or `url("...")`;
    - output side effects that survive a failed `try_parse` in the @import branch;
    - `:host` detection returning early at end of input. *)
 From GE Require Export Model.CssOut Model.CssUrlEnc.
@@ -100,16 +105,37 @@ Definition s_wx_host : str := [119; 120; 45; 104; 111; 115; 116].
 Definition s_is : str := [105; 115].
 Definition s_dashdash : str := [45; 45].
 
-Definition is_calc_fn (t : tok) : bool :=
-  match t with TFunc s => str_eqb s s_calc | _ => false end.
+Definition lower (c : N) : N := if is_upper c then c + 32 else c.
+(* str::eq_ignore_ascii_case *)
+Definition str_eqb_ci (a b : str) : bool := str_eqb (map lower a) (map lower b).
+
+Definition s_min : str := [109; 105; 110].
+Definition s_max : str := [109; 97; 120].
+Definition s_clamp : str := [99; 108; 97; 109; 112].
+Definition s_url : str := [117; 114; 108].
+Definition s_container : str := [99; 111; 110; 116; 97; 105; 110; 101; 114].
+Definition s_scope : str := [115; 99; 111; 112; 101].
+Definition s_starting_style : str := [115; 116; 97; 114; 116; 105; 110; 103; 45; 115; 116; 121; 108; 101].
+
+(* lib.rs is_math_function *)
+Definition is_math_name (s : str) : bool :=
+  str_eqb_ci s s_calc || str_eqb_ci s s_min || str_eqb_ci s s_max || str_eqb_ci s s_clamp.
+Definition is_math_fn (t : tok) : bool :=
+  match t with TFunc s => is_math_name s | _ => false end.
+
+(* calc mode of the body of a block met by convert_rpx_in_block in mode `in_calc` *)
+Definition child_calc (in_calc : bool) (open : tok) : bool :=
+  match open with
+  | TFunc s => is_math_name s
+  | TParen => in_calc
+  | _ => false
+  end.
 
 Definition is_plus_minus (t : option tok) : bool :=
   match t with Some (TDelim c) => (c =? 43) || (c =? 45) | _ => false end.
 
 Definition is_curly (t : tok) : bool := match t with TCurly => true | _ => false end.
-Definition is_func (t : tok) : bool := match t with TFunc _ => true | _ => false end.
 
-Definition or_pos (pend : option pos) (p : pos) : pos := match pend with Some q => q | None => p end.
 Definition keep_first (pend : option pos) (p : pos) : option pos :=
   match pend with None => Some p | _ => pend end.
 
@@ -135,22 +161,22 @@ Definition write_maybe_rpx_dimension (o : opts) (st : wstate) (n : cnum) (u : st
 
 (* ---------------------------------------------------------------- convert_rpx_in_block *)
 
-Fixpoint rpx_body (o : opts) (in_calc : bool) (l : list node) (prev : option tok) (pend : option pos)
+Fixpoint rpx_body (o : opts) (in_calc : bool) (l : list node) (prev : option tok)
                   (st : wstate) {struct l} : wstate :=
   match l with
   | [] => st
   | n :: r =>
       let t := node_tok n in
       if is_comment t then
-        rpx_body o in_calc r prev (if in_calc then keep_first pend (node_pos n) else None) st
-      else if is_ws t && negb in_calc then rpx_body o in_calc r prev None st
+        rpx_body o in_calc r prev st
+      else if is_ws t && negb in_calc then rpx_body o in_calc r prev st
       else
-        let p := or_pos pend (node_pos n) in
+        let p := node_pos n in
         let st' :=
           match n with
           | Block open _ body _ _ =>
               let st1 := tok_at st open p None in
-              let st2 := rpx_body o (is_calc_fn open) body None None st1 in
+              let st2 := rpx_body o (child_calc in_calc open) body None st1 in
               tok_at st2 (close_of open) p None
           | Leaf (TDim nm u) _ => write_maybe_rpx_dimension o st nm u p
           | Leaf (TWs _) _ =>
@@ -158,22 +184,22 @@ Fixpoint rpx_body (o : opts) (in_calc : bool) (l : list node) (prev : option tok
               then tok_at st (TWs sp) p None else st
           | Leaf t' _ => tok_at st t' p None
           end in
-        rpx_body o in_calc r (Some t) None st'
+        rpx_body o in_calc r (Some t) st'
   end.
 
 (* ---------------------------------------------------------------- convert_class_names_and_rpx_in_block *)
 
-Fixpoint cn_body (o : opts) (l : list node) (lead in_class has_ws : bool) (pend : option pos)
+Fixpoint cn_body (o : opts) (l : list node) (lead in_class has_ws : bool)
                  (st : wstate) {struct l} : wstate :=
   match l with
   | [] => st
   | n :: r =>
       let t := node_tok n in
       if is_comment t then
-        cn_body o r lead in_class has_ws (if lead then None else keep_first pend (node_pos n)) st
-      else if is_ws t && lead then cn_body o r true in_class has_ws None st
+        cn_body o r lead in_class has_ws st
+      else if is_ws t && lead then cn_body o r true in_class has_ws st
       else
-        let p := or_pos pend (node_pos n) in
+        let p := node_pos n in
         let st0 := if is_curly t || is_ws t then st
                    else if has_ws then tok_sp st (TWs sp) p None else st in
         (* (state, in_class, has_whitespace) after this token *)
@@ -181,9 +207,9 @@ Fixpoint cn_body (o : opts) (l : list node) (lead in_class has_ws : bool) (pend 
           match n with
           | Block open _ body _ _ =>
               let st1 := tok_at st0 open p None in
-              let st2 := if is_func open
-                         then rpx_body o (is_calc_fn open) body None None st1
-                         else cn_body o body true false false None st1 in
+              let st2 := if is_math_fn open
+                         then rpx_body o true body None st1
+                         else cn_body o body true false false st1 in
               (tok_at st2 (close_of open) p None, false, false)
           | Leaf (TDelim c) _ => (tok_at st0 t p None, c =? 46, false)
           | Leaf (TIdent s) _ => (write_maybe_class_name o st0 s p in_class, false, false)
@@ -191,38 +217,38 @@ Fixpoint cn_body (o : opts) (l : list node) (lead in_class has_ws : bool) (pend 
           | Leaf (TWs _) _ => (st0, false, true)
           | Leaf t' _ => (tok_at st0 t' p None, false, false)
           end in
-        cn_body o r false (snd (fst res)) (snd res) None (fst (fst res))
+        cn_body o r false (snd (fst res)) (snd res) (fst (fst res))
   end.
 
 (* ---------------------------------------------------------------- parse_qualified_rule *)
 
 (* main loop; returns the remaining siblings *)
-Fixpoint qr_loop (o : opts) (l : list node) (in_class has_ws : bool) (pend : option pos)
+Fixpoint qr_loop (o : opts) (l : list node) (in_class has_ws : bool)
                  (st : wstate) {struct l} : list node * wstate :=
   match l with
   | [] => ([], st)
   | n :: r =>
       let t := node_tok n in
-      if is_comment t then qr_loop o r in_class has_ws (keep_first pend (node_pos n)) st
+      if is_comment t then qr_loop o r in_class has_ws st
       else
-        let p := or_pos pend (node_pos n) in
+        let p := node_pos n in
         let st0 := if is_curly t || is_ws t then st
                    else if has_ws then tok_sp st (TWs sp) p None else st in
         match n with
         | Block TCurly _ body _ _ =>
             let st1 := tok_at st0 TCurly p None in
-            let st2 := rpx_body o false body None None st1 in
+            let st2 := rpx_body o false body None st1 in
             (r, tok_at st2 TCloseCurly p None)
         | Block open _ body _ _ =>
             let st1 := tok_at st0 open p None in
-            let st2 := cn_body o body true false false None st1 in
-            qr_loop o r false false None (tok_at st2 (close_of open) p None)
+            let st2 := cn_body o body true false false st1 in
+            qr_loop o r false false (tok_at st2 (close_of open) p None)
         | Leaf (TDelim c) _ =>
-            if c =? 46 then qr_loop o r true false None (tok_sp st0 t p None)
-            else qr_loop o r false false None (tok_sp st0 t p None)
-        | Leaf (TIdent s) _ => qr_loop o r false false None (write_maybe_class_name o st0 s p in_class)
-        | Leaf (TWs _) _ => qr_loop o r false true None st0
-        | Leaf t' _ => qr_loop o r false false None (tok_sp st0 t' p None)
+            if c =? 46 then qr_loop o r true false (tok_sp st0 t p None)
+            else qr_loop o r false false (tok_sp st0 t p None)
+        | Leaf (TIdent s) _ => qr_loop o r false false (write_maybe_class_name o st0 s p in_class)
+        | Leaf (TWs _) _ => qr_loop o r false true st0
+        | Leaf t' _ => qr_loop o r false false (tok_sp st0 t' p None)
         end
   end.
 
@@ -265,7 +291,7 @@ Definition host_emit (o : opts) (st : wstate) (p : pos) (body : list node) : wst
             | None => st
             end in
   let st := tok_at st TCurly p None in
-  let st := rpx_body o false body None None st in
+  let st := rpx_body o false body None st in
   let st := tok_at st TCloseCurly p None in
   set_using_low (low_close_wrappers st) false.
 
@@ -301,7 +327,7 @@ Definition qrule (o : opts) (l : list node) (endp : pos) (st : wstate) : list no
   let l0 := skip_ws l in
   match (if convert_host o then host_try_parse o l0 endp st else HostErr) with
   | HostDone rest st' => (rest, st')
-  | HostErr => qr_loop o l0 false false None st
+  | HostErr => qr_loop o l0 false false st
   end.
 
 (* ---------------------------------------------------------------- parse_at_rule *)
@@ -331,13 +357,13 @@ Fixpoint import_conds (o : opts) (l : list node) (closes : list (tok * pos)) (st
            | Block (TFunc x) p body _ _ =>
                if str_eqb x s_layer then
                  let st1 := tok_at st (TAt x) p (Some (TFunc x)) in
-                 let st2 := cn_body o body true false false None st1 in
+                 let st2 := cn_body o body true false false st1 in
                  let st3 := tok_at st2 TCurly p None in
                  import_conds o r ((TCloseCurly, p) :: closes) st3
                else if str_eqb x s_supports then
                  let st1 := tok_at st (TAt x) p (Some (TFunc x)) in
                  let st2 := tok_at st1 TParen p None in
-                 let st3 := cn_body o body true false false None st2 in
+                 let st3 := cn_body o body true false false st2 in
                  let st4 := tok_at st3 TCloseParen p None in
                  let st5 := tok_at st4 TCurly p None in
                  import_conds o r ((TCloseCurly, p) :: closes) st5
@@ -360,7 +386,7 @@ Fixpoint import_media (o : opts) (l : list node) (wpos : pos) (st : wstate)
            | Block TCurly _ _ _ _ => (None, warn st W_UNEXPECTED wpos)
            | Block open p body _ _ =>
                let st1 := tok_at st open p None in
-               let st2 := cn_body o body true false false None st1 in
+               let st2 := cn_body o body true false false st1 in
                import_media o r wpos (tok_at st2 (close_of open) p None)
            | Leaf TSemi _ => (Some r, st)
            | Leaf t p => import_media o r wpos (tok_at st t p None)
@@ -372,10 +398,25 @@ Definition close_all (closes : list (tok * pos)) (st : wstate) : wstate :=
 
 (* the closure passed to try_parse in the @import branch; None = Err (parser state is reset by
    the caller, output and warnings are not) *)
+(* cssparser `expect_url_or_string`: a string, a url token, or `url(` <string> `)` *)
+Definition import_target (l : list node) : option (str * list node) :=
+  match skip_ws l with
+  | Leaf (TStr s) _ :: r => Some (s, r)
+  | Leaf (TUrl s) _ :: r => Some (s, r)
+  | Block (TFunc f) _ body _ _ :: r =>
+      if str_eqb_ci f s_url then
+        match skip_ws body with
+        | Leaf (TStr s) _ :: r2 => match skip_ws r2 with [] => Some (s, r) | _ => None end
+        | _ => None
+        end
+      else None
+  | _ => None
+  end.
+
 Definition import_try (o : opts) (sign : str) (start_pos : pos) (r : list node) (endp : pos)
                       (st : wstate) : option (list node) * wstate :=
-  match skip_ws r with
-  | Leaf (TStr path) _ :: r1 =>
+  match import_target r with
+  | Some (path, r1) =>
       match import_conds o r1 [] st with
       | ImpErr st' => (None, st')
       | ImpGo cursor has_media closes st1 =>
@@ -396,11 +437,13 @@ Definition import_try (o : opts) (sign : str) (start_pos : pos) (r : list node) 
               (Some rest, close_all closes' st5)
           end
       end
-  | _ => (None, st)
+  | None => (None, st)
   end.
 
 Definition contain_rule_list (x : str) : bool :=
-  str_eqb x s_media || str_eqb x s_supports || str_eqb x s_document.
+  str_eqb_ci x s_media || str_eqb_ci x s_supports || str_eqb_ci x s_document ||
+  str_eqb_ci x s_layer || str_eqb_ci x s_container || str_eqb_ci x s_scope ||
+  str_eqb_ci x s_starting_style.
 
 (* prelude loop of a generic at-rule; `rec` = parse_rules on a nested block *)
 Fixpoint at_prelude (o : opts) (rec : list node -> pos -> wstate -> wstate) (contain : bool)
@@ -414,12 +457,12 @@ Fixpoint at_prelude (o : opts) (rec : list node -> pos -> wstate -> wstate) (con
                let seg := segment_since (cur_out st) mark in
                let st1 := set_stack st (w_stack st ++ [seg]) in
                let st2 := tok_at st1 TCurly p None in
-               let st3 := if contain then rec body be st2 else rpx_body o false body None None st2 in
+               let st3 := if contain then rec body be st2 else rpx_body o false body None st2 in
                let st4 := tok_at st3 TCloseCurly p None in
                (r, set_stack st4 (removelast (w_stack st4)))
            | Block open p body _ _ =>
                let st1 := tok_at st open p None in
-               let st2 := cn_body o body true false false None st1 in
+               let st2 := cn_body o body true false false st1 in
                at_prelude o rec contain mark r (tok_at st2 (close_of open) p None)
            | Leaf TSemi p => (r, tok_at st TSemi p None)
            | Leaf t p => at_prelude o rec contain mark r (tok_at st t p None)
